@@ -177,6 +177,12 @@ def generate(rs, mode, tier, index):
             "solver": rng.choice(["SCS", "CLARABEL"], p=[0.6, 0.4]),
             "perturb": rng.integers(1, 10 ** 6),
             "mask_form": rng.choice(["float", "bool", "int", "list", "tuple"], p=[4, 2, 2, 2, 1])}
+    if mode == "clean" and not big and rng.coin(0.25):
+        # history in one process: an earlier, unrelated decomposition asked for with sloppy
+        # solver options must leave nothing behind for the call under test
+        plan["prelude"] = {"solver": plan["solver"],
+                           "opts": ({"eps": 0.3, "max_iters": 20} if plan["solver"] == "SCS"
+                                    else {"max_iter": 3})}
     if mode == "clean" and not big and rng.coin(0.3):
         # stop on the loop's own tolerances while the scheme still makes visible progress
         plan["ftol"] = rng.choice([1e-3, 1e-2, 3e-2])
@@ -232,6 +238,21 @@ def run_decomp(plan, est, seed=None):
         plan["B"], n_layers=n_layers_arg, mask=mask, lbp=plan["lbp"],
         ubp=plan["ubp"], max_iter=plan["max_iter"], seed=plan["seed"] if seed is None else seed,
         subsample=plan["subsample"], equal_l1norm_constraint=plan["equal_l1"], **kw)
+
+
+def run_prelude(plan):
+    """Another estimator, fewer samples, sloppy solver options; the outcome is ignored."""
+    pre = plan["prelude"]
+    est = build(dict(plan, W=None))
+    kw = dict(pre["opts"])
+    if pre["solver"] != "SCS":
+        kw["solver"] = pre["solver"]
+    import warnings as _w
+    with _w.catch_warnings():
+        _w.simplefilter("ignore")
+        return est.fit_decomposition(plan["B"][: max(4, plan["n_layers"] + 2)],
+                                     n_layers=plan["n_layers"], max_iter=2,
+                                     seed=plan["seed"] + 7, subsample=None, **kw)
 
 
 def build(plan):
@@ -314,6 +335,10 @@ def execute(plan):
     iters_run = 0
     worst_rise = -np.inf
     try:
+        if plan.get("prelude"):
+            r_pre = call(run_prelude, plan)
+            bump("fault:earlier_call_with_other_solver_options")
+            log.add("prelude", r_pre.kind)
         if plan["mode"] == "werror":
             with WarningsAsErrors(), SolveSeam() as seam:
                 out = call(run_decomp, plan, est)
@@ -570,6 +595,10 @@ def candidates(plan):
     if plan["pb"] != "default":
         p = dict(plan)
         p["lbp"], p["ubp"], p["pb"] = 0.0, 1.0, "default"
+        yield p
+    if plan.get("prelude"):
+        p = dict(plan)
+        p["prelude"] = None
         yield p
     if plan.get("mask_form", "float") != "float":
         p = dict(plan)
